@@ -1,4 +1,6 @@
 SPECIFICATION Spec
-CONSTANT N = 4
+CONSTANTS
+  N = 4
+  CandChoice = "hit"
 INVARIANT DetectOK
 INVARIANT DetectAnyOK
